@@ -1319,8 +1319,48 @@ fn random_case(ctx: &Ctx, ridx: u64, out: &mut CaseOut) {
     let gaps = [0u32, 1, 1, 2, 3, tb.t - 1, tb.t, tb.t + 1, 3 * tb.t];
     for hi in 0..8 {
         let n = 4 + rng.usize(30);
-        let h = hist::consistent(&mut rng, &keys, n, &gaps, false);
-        let (ins, obs, raw, settled) = drive_random(&mut sim, &h, tb, &nm);
+        let mut h = hist::consistent(&mut rng, &keys, n, &gaps, false);
+        if hi % 4 == 1 {
+            // flood: 1-3 group keys go down, then (after 0-2 ticks, i.e. with the chord still
+            // pending or just decided) 16-19 zero-gap taps of the key outside the group arrive,
+            // which overflows the 32-slot layout queue once or several times; nothing may be
+            // swallowed, and every press is accounted for exactly once as for any other history
+            h.clear();
+            let ng = 1 + rng.usize(3.min(tb.nkeys));
+            let mut gk: Vec<usize> = (0..tb.nkeys).collect();
+            rng.shuffle(&mut gk);
+            gk.truncate(ng);
+            for (i, k) in gk.iter().enumerate() {
+                if i > 0 && rng.chance(1, 3) {
+                    h.push(Ev::T(1));
+                }
+                h.push(Ev::P(osc(KEYS[*k])));
+            }
+            let lead = *rng.pick(&[0u32, 0, 1, 2]);
+            if lead > 0 {
+                h.push(Ev::T(lead));
+            }
+            for _ in 0..16 + rng.usize(4) {
+                h.push(Ev::P(osc(XKEY)));
+                h.push(Ev::R(osc(XKEY)));
+            }
+            h.push(Ev::T(*rng.pick(&[1u32, tb.t, 3 * tb.t])));
+            rng.shuffle(&mut gk);
+            for k in &gk {
+                h.push(Ev::R(osc(KEYS[*k])));
+                h.push(Ev::T(*rng.pick(&[0u32, 1, 9])));
+            }
+            out.inc("random_flood_histories");
+        }
+        let flood = hi % 4 == 1;
+        let (mut ins, mut obs, raw, settled) = drive_random(&mut sim, &h, tb, &nm);
+        if flood {
+            // a tap that is pushed out of the full queue is processed between two ticks and never
+            // shows at the OS - that is the queue's behaviour for any key and not a statement about
+            // chords: the flooding key is left out of the accounting, the group keys are judged
+            ins.retain(|e| e.key != 5);
+            obs.retain(|o| o.id != 5);
+        }
         out.inc("random_histories");
         out.count("random_events", ins.len() as u64);
         let mut sig: Option<(String, String)> = None;
@@ -1348,7 +1388,11 @@ fn random_case(ctx: &Ctx, ridx: u64, out: &mut CaseOut) {
             let mut confirmed = true;
             if hi > 0 {
                 if let Ok(mut fresh) = new_sim(c) {
-                    let (i2, o2, _, st) = drive_random(&mut fresh, &h, tb, &nm);
+                    let (mut i2, mut o2, _, st) = drive_random(&mut fresh, &h, tb, &nm);
+                    if flood {
+                        i2.retain(|e| e.key != 5);
+                        o2.retain(|o| o.id != 5);
+                    }
                     confirmed = !st || accounting(c, &i2, &o2).is_err();
                 }
             }
@@ -1494,7 +1538,7 @@ impl Check for C09Check {
         out
     }
     fn rule(&self) -> String {
-        "case = one configuration (8 chord tables over 2-5 participating keys: single pair, sub-chord + superset, overlapping pairs with an undefined superset, lone triple, two overlapping triples, pairs + quad, chain of 2/3/4, five-key chord with sub-chords; three defchordsv2-only tables whose chords have different timeouts, an unrelated chord on the same key having a much shorter or longer one; each as a defchords group with single-key chords and as defchordsv2 with all-released / first-release, on the base layer and on a layer where every other chord is disabled; participants written in non-sorted order) and a chunk of its scenario space: for every non-empty subset of the participating keys (subsets of up to 3 keys complete in both tiers; quick: 4-key subsets sampled, 40 000 of 288 000 scenarios each, with a fixed stride; thorough: 4-key subsets complete, 5-key subsets 300 000 of 36 M with a fixed stride; the sampling does not depend on the seed) every permutation of press order x every combination of inter-press gaps from {0,1,T-1,T,T+1} x every permutation of release order x hold {0,1,T+3} x inter-release gap {0,2,9}; for defchordsv2 additionally every chord plus one bystander key (a plain key that is in no chord) in the same scenario space; plus random physically consistent histories mixing chord keys, a non-chord key and an unrelated key (accounting oracle only); plus one parser case (permuted duplicate key sets must be rejected); plus six defchordsv2 configurations in which one hub key takes part in 15 / 17 / 20 two-key chords, every chord in both press orders with gaps 0/1/20; plus the delayed-start family: the 8 single-timeout tables (defchords group, defchordsv2 all-released and first-release) on a layer that also has a blocker key z = (tap-hold TH TH z y) with TH = 14T+60: z is pressed first and stays undecided while, for every subset of up to 4 participating keys, the keys are pressed in every order with every combination of inter-press gaps from {0,1,T-1,T,T+1,2T,3T,4T}; the blocker is then decided by its release (pressed 0/1/6 ticks before the first group key, released 1/2/9 ticks after the last queued event) or by its hold timeout (running out 1/2/9 ticks after the last queued event); the group keys are released in every order, hold {0,1,T+3}, inter-release gap {0,9}, either after the decision or before it (queued behind the blocker too); one- and two-key subsets complete in both tiers, larger subsets sampled with a fixed stride (defchords: quick 2 400 / thorough 40 000 per subset, defchordsv2: 800 / 8 000); the random histories also draw the blocker configurations, with z among the keys. Non-trivial = scenario ran and was judged; distinct = (configuration, pressed subset, scenario class, sequence of fired units).".into()
+        "case = one configuration (8 chord tables over 2-5 participating keys: single pair, sub-chord + superset, overlapping pairs with an undefined superset, lone triple, two overlapping triples, pairs + quad, chain of 2/3/4, five-key chord with sub-chords; three defchordsv2-only tables whose chords have different timeouts, an unrelated chord on the same key having a much shorter or longer one; each as a defchords group with single-key chords and as defchordsv2 with all-released / first-release, on the base layer and on a layer where every other chord is disabled; participants written in non-sorted order) and a chunk of its scenario space: for every non-empty subset of the participating keys (subsets of up to 3 keys complete in both tiers; quick: 4-key subsets sampled, 40 000 of 288 000 scenarios each, with a fixed stride; thorough: 4-key subsets complete, 5-key subsets 300 000 of 36 M with a fixed stride; the sampling does not depend on the seed) every permutation of press order x every combination of inter-press gaps from {0,1,T-1,T,T+1} x every permutation of release order x hold {0,1,T+3} x inter-release gap {0,2,9}; for defchordsv2 additionally every chord plus one bystander key (a plain key that is in no chord) in the same scenario space; plus random physically consistent histories mixing chord keys, a non-chord key and an unrelated key (accounting oracle only); plus one parser case (permuted duplicate key sets must be rejected); plus six defchordsv2 configurations in which one hub key takes part in 15 / 17 / 20 two-key chords, every chord in both press orders with gaps 0/1/20; plus the delayed-start family: the 8 single-timeout tables (defchords group, defchordsv2 all-released and first-release) on a layer that also has a blocker key z = (tap-hold TH TH z y) with TH = 14T+60: z is pressed first and stays undecided while, for every subset of up to 4 participating keys, the keys are pressed in every order with every combination of inter-press gaps from {0,1,T-1,T,T+1,2T,3T,4T}; the blocker is then decided by its release (pressed 0/1/6 ticks before the first group key, released 1/2/9 ticks after the last queued event) or by its hold timeout (running out 1/2/9 ticks after the last queued event); the group keys are released in every order, hold {0,1,T+3}, inter-release gap {0,9}, either after the decision or before it (queued behind the blocker too); one- and two-key subsets complete in both tiers, larger subsets sampled with a fixed stride (defchords: quick 2 400 / thorough 40 000 per subset, defchordsv2: 800 / 8 000); the random histories also draw the blocker configurations, with z among the keys. Non-trivial = scenario ran and was judged; distinct = (configuration, pressed subset, scenario class, sequence of fired units). Every fourth random history is a flood: 1-3 group keys go down and, with the chord still pending or just decided, 16-19 zero-gap taps of the key outside the group overflow the 32-slot layout queue; the group keys are judged by the accounting oracle (not swallowed, order kept, chord consumed its keys), the flooding key is not (a tap pushed out of the full queue is processed between two ticks and never shows at the OS, for any key).".into()
     }
     fn assumptions(&self) -> Vec<String> {
         vec![
@@ -1512,6 +1556,7 @@ impl Check for C09Check {
         let _ = ctx;
         vec![
             ("v1_class_positive", 5_000),
+            ("random_flood_histories", 1_000),
             ("wide_scenarios", 500),
             ("wide_scenarios_chord_listed_17th_or_later", 30),
             ("v2_scenarios_with_bystander", 5_000),
